@@ -974,6 +974,17 @@ def check(run):
         lp = f'cv.pipR {enc(c[0], c[1], inner, outer, amin, amax, kr, *[x for q in qs for x in q])}'
         kinds[lp] = kinds[ln]
         pip_lines.append(lp)
+        # two sibling wedges with the same sample count and a bit-equal angular extent but different start bearings,
+        # drawn back to back: anything remembered per (k, extent) must not leak from one wedge to the next (C03-t1)
+        if rng.random() < 0.5:
+            sp = rng.randrange(5, 171)
+            s1 = rng.randrange(0, 361 - sp)
+            s2 = rng.choice([s for s in range(0, 361 - sp) if s != s1])
+            for s in (s1, s2):
+                for op, dest in (('cv.ring', ring_lines), ('cv.lrings', lr_lines)):
+                    ls = f'{op} {enc(c[0], c[1], inner, outer, float(s), float(s + sp), kr)}'
+                    kinds[ls] = f'ring:sibling-extent:{tagk}{am}'
+                    dest.append(ls)
 
     # queries that sit *exactly* on a boundary in binary64 (the property's band excludes them; the model does not):
     # bearing 0.0 / 90.0 / 180.0 / 270.0 on a wedge's own side, distance 0.0 = inner radius 0, radius 0 circle
